@@ -414,7 +414,7 @@ func main() {
 	concRandom(run, "fixed-conc", 8, 200, []string{"a", "b", "c"})
 
 	// ---- generated sequential histories ----
-	nHist := run.Scale(220, 3000)
+	nHist := run.Scale(700, 6000)
 	for h := 0; h < nHist; h++ {
 		w = newWorld()
 		run.Case("reset", "reset", "ok")
